@@ -26,10 +26,14 @@ type scen struct {
 	Script  string `json:"script"`  // over {P,R}
 	Exits   []int  `json:"exits"`   // subscribers told to exit (each by its own thread), in subscription order
 	Workers int    `json:"workers"` // subscribers
+	Pre     string `json:"pre,omitempty"` // calls made before any worker has subscribed (a watchdog firing between stage starts)
 	P       int    `json:"p"`
 }
 
 func (s *scen) name() string {
+	if s.Pre != "" {
+		return fmt.Sprintf("manager: pre=%s script=%s exits=%v workers=%d", s.Pre, s.Script, s.Exits, s.Workers)
+	}
 	return fmt.Sprintf("manager: script=%s exits=%v workers=%d", s.Script, s.Exits, s.Workers)
 }
 
@@ -65,6 +69,13 @@ func scenario(s *scen) *vsched.Scenario {
 		quit := make([]chan struct{}, s.Workers)
 		work := make(chan int)
 		subs := make([]*pause.ControlChans, s.Workers)
+		for k := 0; k < len(s.Pre); k++ { // nobody has subscribed yet
+			if s.Pre[k] == 'P' {
+				pause.Pause("verif")
+			} else {
+				pause.Resume()
+			}
+		}
 		for i := range subs {
 			subs[i] = pause.Subscribe() // controllers act on a running pipeline: every worker has subscribed
 		}
@@ -135,6 +146,10 @@ func scenario(s *scen) *vsched.Scenario {
 			return fmt.Errorf("caller-blocked: call %d (%c) of the controller never returned (paused now: %v); parked: %s", o.returned+1, s.Script[o.returned], pause.IsPaused(), strings.Join(x.Blocked(), "; "))
 		}
 		paused := pause.IsPaused()
+		if all := s.Pre + s.Script; all != "" && paused != (all[len(all)-1] == 'P') {
+			// one controller: its calls are sequential, so the state after the last one is that call's
+			return fmt.Errorf("manager-state-wrong: after the calls %s+%s of one controller the manager reports paused=%v", s.Pre, s.Script, paused)
+		}
 		for i, st := range o.w {
 			if st.exited {
 				continue
@@ -191,6 +206,11 @@ func scenarios(tier string) []scen {
 			out = append(out, scen{Script: sc, Exits: []int{e}, Workers: 3, P: p1})
 		}
 		out = append(out, scen{Script: sc, Exits: []int{0, 2}, Workers: 3, P: 2})
+		// any number of subscribed workers: none, one (that may leave), and calls made before anybody subscribed
+		out = append(out, scen{Script: sc, Workers: 0, P: p1}, scen{Script: sc, Workers: 1, P: p1}, scen{Script: sc, Exits: []int{0}, Workers: 1, P: p1})
+		for _, pre := range []string{"PR", "R", "PPR"} {
+			out = append(out, scen{Pre: pre, Script: sc, Workers: 2, P: 2})
+		}
 	}
 	return out
 }
